@@ -36,6 +36,8 @@ type Sched struct {
 	parked  []*parked
 	seq     uint64
 	enabled map[string]bool // nil = all sites enabled
+	// Disabled sites never park, whatever `enabled` says (set before the run starts goroutines).
+	Disabled map[string]bool
 	off     bool
 	pass    int // >0: every Yield returns at once (the root goroutine is making calls of its own)
 	// T is the tape that decides ties handed to the simulator by the code under test (default: the run's tape).
@@ -90,7 +92,7 @@ func Install(c *core.Ctx, sites []string) *Sched {
 
 func (s *Sched) yield(site string) {
 	s.mu.Lock()
-	if s.off || s.pass > 0 || (s.enabled != nil && !s.enabled[site]) {
+	if s.off || s.pass > 0 || s.Disabled[site] || (s.enabled != nil && !s.enabled[site]) {
 		s.mu.Unlock()
 		return
 	}
